@@ -989,7 +989,11 @@ func (g *generatorObject) next(v Value) Value {
 	}
 	if g.delegated != nil {
 		res, done := g.tryCallDelegated(func() (Value, bool) {
-			return g.callDelegated(g.delegated.next, v)
+			next := g.delegated.next
+			if next == nil {
+				panic(g.val.runtime.NewTypeError("iterator.next is missing or not a function"))
+			}
+			return g.callDelegated(next, v)
 		})
 		if !done {
 			return res
